@@ -50,6 +50,9 @@ def c_pairs(prs):
     return clist(["(%s, %s)" % (cbytes(k), cbytes(v)) for k, v in prs], "(list Z * list Z)")
 
 
+# text for JSON / form / multipart fields: Latin-1 range, beyond Latin-1, CJK, emoji
+NONASCII = [u"\u00e9", u"\u00fc\u00a9", u"caf\u00e9 \u00df", u"\u0142", u"\u20ac", u"\u4e2d\u6587", u"\U0001f600", u"a\u00e9\u0142\u20ac\U0001f600z"]
+
 PCT_SHAPES = [u"%41", u"%2", u"%%", u"%25", u"%20", u"%zz", u"%C3%A9", u"%2F", u"%", u"%4", u"50%25off", u"a%20b", u"%e2%82%ac",
               u"%3D", u"%26", u"%2B", u"+%2B", u"%0A"]
 
@@ -80,6 +83,18 @@ def rand_bytes(rng, maxlen=40):
 
 
 # ---------------------------------------------------------------- (A) function-level correspondence
+
+RAISED_Z = "[(-999)%Z]"                  # outcome literal of a case in which the implementation raised
+RAISED_PAIRS = "[([(-999)%Z], (@nil Z))]"
+
+
+def impl_call(fn, *pa, **kwa):
+    """call implementation code; an exception is an OUTCOME of the case, never the end of the run"""
+    try:
+        return fn(*pa, **kwa), None
+    except Exception as ex:      # noqa: BLE001
+        return None, "%s: %s" % (type(ex).__name__, ex)
+
 
 def function_cases(ctx):
     """returns (list of (model_expr, impl_literal, eqb, meta))"""
@@ -113,17 +128,29 @@ def function_cases(ctx):
             if k not in keys:
                 keys.append(k)
         prs = [(k, rand_text(rng)) for k in keys]
-        qargs, query = httping.updateQargsQuery(odict(prs), u'')
         b = [(k.encode("utf-8"), v.encode("utf-8")) for k, v in prs]
+        res, exc = impl_call(httping.updateQargsQuery, odict(prs), u'')
+        if exc:
+            bz.append(("(build_query %s)" % c_pairs(b), RAISED_Z, ("build_query RAISED " + exc, prs)))
+            continue
+        qargs, query = res
         bz.append(("(build_query %s)" % c_pairs(b), cbytes(query.encode("utf-8")), ("build_query", prs)))
-        back, _ = httping.updateQargsQuery(odict(), query)
+        res, exc = impl_call(httping.updateQargsQuery, odict(), query)
+        if exc:
+            pz.append(("(parse_query %s)" % cbytes(query.encode("utf-8")), RAISED_PAIRS, ("parse_query RAISED " + exc, query)))
+            continue
+        back, _ = res
         pz.append(("(parse_query %s)" % cbytes(query.encode("utf-8")),
                    c_pairs([(k.encode("utf-8"), str(v).encode("utf-8")) for k, v in back.items()]),
                    ("parse_query", query)))
     raw_queries = [u"a=1;b=2", u"a=1&b=2;c=3", u"flag", u"a=1&flag&b=", u"a=1&a=2&b=3&a=4", u"&&a=b&&", u"a==b=c", u"=v", u"a=%zz+%41",
                    u"x=a+b%20c&y=%C3%BC", u";", u"a;b;c=d"]
     for q in raw_queries:
-        back, _ = httping.updateQargsQuery(odict(), q)
+        res, exc = impl_call(httping.updateQargsQuery, odict(), q)
+        if exc:
+            pz.append(("(parse_query %s)" % cbytes(q.encode("utf-8")), RAISED_PAIRS, ("parse_query RAISED " + exc, q)))
+            continue
+        back, _ = res
         pz.append(("(parse_query %s)" % cbytes(q.encode("utf-8")),
                    c_pairs([(k.encode("utf-8"), str(v).encode("utf-8")) for k, v in back.items()]),
                    ("parse_query", q)))
@@ -149,9 +176,16 @@ def function_cases(ctx):
         hdrs = odict()
         if user_cl:
             hdrs[u'Content-Length'] = str(len(body))
-        rq = clienting.Requester(hostname='127.0.0.1', port=6101, method=method, path=u'/p', headers=hdrs,
-                                 body=body, data=data, fargs=odict(fargs) if fargs is not None else None)
-        msg = rq.build()
+        d = None if data is None else json.dumps(data, separators=(',', ':')).encode("utf-8")
+        f = None if fargs is None else [(k.encode("utf-8"), v.encode("utf-8")) for k, v in fargs]
+        model = "(sel %s %s %s %s %s)" % (cbytes(method.encode()), cbool(user_cl), copt(d, cbytes),
+                                          copt(f, c_pairs), cbytes(body))
+        msg, exc = impl_call(lambda: clienting.Requester(
+            hostname='127.0.0.1', port=6101, method=method, path=u'/p', headers=hdrs, body=body, data=data,
+            fargs=odict(fargs) if fargs is not None else None).build())
+        if exc:
+            bz.append((model, RAISED_Z, ("Requester.build RAISED " + exc, method, user_cl, data, fargs, body)))
+            continue
         head, _, sent = msg.partition(b"\r\n\r\n")
         lines = head.split(b"\r\n")[1:]
         cls = [l.split(b":", 1)[1].strip() for l in lines if l.lower().startswith(b"content-length:")]
@@ -174,7 +208,10 @@ def function_cases(ctx):
     # packChunk / parseChunk
     for _ in range(ctx.n(120, 1500)):
         pieces = [rand_bytes(rng, rng.choice([0, 1, 3, 15, 16, 17, 40, 300])) for _ in range(rng.randint(0, 4))]
-        wire = b"".join(httping.packChunk(p) for p in pieces if p) + httping.packChunk(b"")
+        wire, exc = impl_call(lambda: b"".join(httping.packChunk(p) for p in pieces if p) + httping.packChunk(b""))
+        if exc:
+            bz.append(("(chunked_body %s)" % clist([cbytes(p) for p in pieces], "(list Z)"), RAISED_Z, ("packChunk RAISED " + exc, pieces)))
+            continue
         bz.append(("(chunked_body %s)" % clist([cbytes(p) for p in pieces], "(list Z)"), cbytes(wire), ("packChunk", pieces)))
         rest = rand_bytes(rng, 6)
         cut = rng.random() < 0.25
@@ -198,6 +235,8 @@ def function_cases(ctx):
                     break
         except (ValueError, httping.HTTPException):   # malformed chunk (class depends on C32's fix)
             status = -2
+        except Exception:                              # anything else is an outcome too
+            status = -3
         lit = "(%s, %s)" % ((clist([cz(0)] + [cz(b) for b in body], "Z"), cbytes(bytes(buf))) if status == 0
                             else (clist([cz(status)], "Z"), cbytes(b"")))
         sz.append(("(dres_code (dechunk 50 %s []))" % cbytes(given), lit, ("parseChunk", pieces, cut)))
@@ -285,6 +324,31 @@ def gen_response(rng):
     return resp
 
 
+def decode_multipart(ctype, body):
+    """the text fields of a multipart/form-data body: [(name, value)] or a string saying why not"""
+    import re
+    m = re.search(r"boundary=([^;]+)", ctype or "")
+    if not m:
+        return "no boundary in %r" % ctype
+    delim = b"--" + m.group(1).strip().encode("latin-1")
+    try:
+        parts = body.split(delim)
+        if parts[-1].strip() != b"--":
+            return "no closing delimiter"
+        out = []
+        for part in parts[1:-1]:
+            head, _, val = part.partition(b"\r\n\r\n")
+            nm = re.search(rb'name="(.*)"', head)
+            if nm is None:
+                return "part without name"
+            if val.endswith(b"\r\n"):
+                val = val[:-2]
+            out.append((nm.group(1).decode("utf-8"), val.decode("utf-8")))
+        return out
+    except UnicodeDecodeError as ex:
+        return "undecodable: %s" % ex
+
+
 def exchange_violation(req, resp, out):
     """the property's statement evaluated on the implementation's observable result"""
     if out["error"]:
@@ -300,6 +364,8 @@ def exchange_violation(req, resp, out):
     if got_q != [(k, v) for k, v in req["qargs"]]:
         return "query arguments %r != %r (QUERY_STRING %r)" % (got_q, req["qargs"], env["QUERY_STRING"])
     for h, v in req["headers"]:
+        if h.lower() == "content-type" and req["fargs"] is not None and req["method"] != u"GET":
+            continue       # Requester rewrites it (boundary / form type)
         key = "HTTP_" + h.upper().replace("-", "_")
         if env.get(key) != v:
             return "header %s: %r != %r" % (h, env.get(key), v)
@@ -315,6 +381,12 @@ def exchange_violation(req, resp, out):
             return "JSON body %r is not JSON" % body
         if not env.get("CONTENT_TYPE", "").startswith("application/json"):
             return "CONTENT_TYPE %r for JSON data" % env.get("CONTENT_TYPE")
+    elif req["fargs"] is not None and any(k.lower() == "content-type" and v.startswith("multipart/form-data")
+                                           for k, v in req["headers"]):
+        want = None
+        dec = decode_multipart(env.get("CONTENT_TYPE", ""), body)
+        if dec != [(k, v) for k, v in req["fargs"]]:
+            return "multipart body %r decodes to %r, form arguments were %r" % (body[:200], dec, req["fargs"])
     elif req["fargs"] is not None:
         want = None
         try:
@@ -415,6 +487,8 @@ def whole_message_cases(req, resp, out):
             if req["data"] is not None:
                 user.append((b"content-type", b"application/json; charset=utf-8"))
             elif req["fargs"] is not None:
+                if any(k.lower() == "content-type" for k, v in req["headers"]):
+                    return [], []          # multipart: the boundary is random, not modelled
                 user.append((b"content-type", b"application/x-www-form-urlencoded; charset=utf-8"))
         cls = clist([cz(int(d)) for d in str(len(body))], "Z")
         L = "(requester_headers %s %s %s %s)" % (cbytes(b"127.0.0.1:%d" % harness.PORT), c_hdrs(user), cbytes(body), cls)
@@ -749,7 +823,7 @@ def run(ctx):
     bz, pz, sz = function_cases(ctx)
     for group, eqb, nm in ((bz, "lz_eqb", "fn_bytes"), (pz, "prs_eqb", "fn_pairs"), (sz, "pr_eqb", "fn_chunk")):
         for c in group:
-            ctx.case({"fn": repr(c[2])[:200]}, nontrivial=True, kind=c[2][0])
+            ctx.case({"fn": repr(c[2])[:200]}, nontrivial=True, kind=c[2][0].split(" RAISED")[0] + (" RAISED" if " RAISED" in c[2][0] else ""))
         bad = ctx.coq_cases(HEADER, eqb, [(c[0], c[1]) for c in group], shard=250, name=nm)
         for i in bad[:4]:
             ctx.tie_broken("correspondence", "C30 model vs %s" % group[i][2][0], repr(group[i][2])[:800])
@@ -765,6 +839,13 @@ def run(ctx):
         pct_requests.append({"method": u"POST", "path": path, "qargs": [], "headers": [], "body": None, "data": None,
                              "fargs": [(u"f%41", path), (u"g", u"%%20")]})
     whead_cases, wenv_cases = [], []
+    for val in NONASCII:
+        pct_requests.append({"method": u"POST", "path": u"/j", "qargs": [], "headers": [], "body": None,
+                             "data": {u"k": val, val: [val, {u"n": 1}]}, "fargs": None})
+        pct_requests.append({"method": u"PUT", "path": u"/f", "qargs": [(u"q", val)], "headers": [], "body": None,
+                             "data": None, "fargs": [(u"k", val), (val, u"v")]})
+        pct_requests.append({"method": u"POST", "path": u"/m", "qargs": [], "body": None, "data": None,
+                             "headers": [(u"Content-Type", u"multipart/form-data")], "fargs": [(u"k", val), (u"n", u"x " + val)]})
     nrand = ctx.n(450, 5000)
     for it in range(len(pct_requests) + nrand):
         req = pct_requests[it] if it < len(pct_requests) else gen_request(ctx.rng)
@@ -859,7 +940,9 @@ def run(ctx):
             return None
         best = min(cands, key=lambda c: len(repr(c[0])) + len(repr(c[1])))
         req, resp, out, why = best
-        if "PATH_INFO" in why:
+        if "JSON" in why or ("UnicodeEncodeError" in why and req.get("data") is not None):
+            key = "json-body-not-utf8"
+        elif "PATH_INFO" in why:
             key = "path-percent-not-escaped"
         elif "form" in why:
             key = "form-reserved-chars"
@@ -892,3 +975,21 @@ def directed():
             out.append((get, {"kind": "raise", "style": style, "start": start, "pieces": pieces, "declared": declared,
                               "status": "200 OK", "headers": [("X-A", "b")], "error": {"status": 404, "title": "T"}}))
     return out
+
+
+def search(ctx):
+    """fallback used by lib/main.py when run() itself was aborted by an exception: the directed
+    exchanges through the real Patron -> Valet pair, held against the end-to-end statement"""
+    harness.fakenet.quiet()
+    ok = {"kind": "len", "status": "200 OK", "headers": [], "pieces": [b"ok"]}
+    cands = list(directed())
+    for val in NONASCII:
+        cands.append(({"method": u"POST", "path": u"/j", "qargs": [], "headers": [], "body": None,
+                       "data": {u"k": val}, "fargs": None}, ok))
+    for req, resp in cands:
+        out = harness.run_exchange(req, resp)
+        why = exchange_violation(req, resp, out)
+        if why:
+            return {"key": "roundtrip-directed", "request": repr(req), "response_spec": repr(resp), "why": why,
+                    "request_wire": repr(out["request_wire"][:600]), "contradicts": "C30 end-to-end round trip"}
+    return None
